@@ -207,6 +207,38 @@ def pointer_aliases(cf):
                                         "through a running pointer are not tracked by the buffer analyses")
 
 
+def wrapper_state(wrap, rep, rule):
+    """No object of the Python wrapper outlives a call: no function-static, no file-scope object other than the method / module tables."""
+    nstat = 0
+    for fname, fn in wrap.funcs.items():
+        for n in wrap.walk(fn):
+            if n.get("kind") == "VarDecl" and n.get("storageClass") == "static":
+                nstat += 1
+                rep.fail(rule, WRAP_C, wrap.line(n), fname, wrap.text(n)[:80],
+                         "a function-static object in the wrapper outlives the call: the array handed back to one task is reused / "
+                         "overwritten by the next call while the first task is still reading it")
+    for g in wrap.globals:
+        ty = g.get("type", {}).get("qualType", "")
+        if "PyMethodDef" in ty or "PyModuleDef" in ty or ty.startswith("const "):
+            continue
+        nstat += 1
+        rep.fail(rule, WRAP_C, wrap.line(g), "specpart_wrap.c", wrap.text(g)[:80],
+                 "file-scope mutable object in the wrapper: state shared between calls / tasks")
+    # the wrapper's AST is dumped through a name filter (Python.h is too large to dump whole), so a file-scope object with a new name is
+    # invisible there: enumerate the file-scope declarations from the source text as well
+    seen_g = {g.get("name") for g in wrap.globals}
+    tg = wrap.text_globals()
+    for name_, text_, line_ in tg:
+        if name_ in seen_g or "PyMethodDef" in text_ or "PyModuleDef" in text_ or text_.startswith(("const ", "static const ")):
+            continue
+        nstat += 1
+        rep.fail(rule, WRAP_C, line_, "specpart_wrap.c", text_[:80],
+                 "file-scope object in the wrapper: whatever it holds (an output array, a cached shape) is shared by every call and every dask "
+                 "task - the array handed back by one call is the one the next call overwrites")
+    rep.ok(rule, WRAP_C, f"{len(wrap.funcs)} functions, {len(wrap.globals)} + {len(tg)} file-scope declarations (AST + text scan)", "no static / file-scope mutable object")
+    return nstat
+
+
 def statics(repo, rep, rule):
     cf = core(repo)
     pointer_aliases(cf)
